@@ -769,7 +769,7 @@ pub fn grid_cases(reg: &Registry, prop: Prop, seed: u64) -> Vec<GridCase> {
 /// A compact batch-shape grid for a backend that exists only on another target (executed there by the
 /// interpreter): one combined instance of one build variant, both directions, the three multi-block shapes
 /// in place and with disjoint buffers, batch lengths par, par+1 and 2*par+1 for that backend's width.
-pub fn target_grid_case(reg: &Registry, fam_name: &str, variant: &str, par: usize, mask: bool, seed: u64, compact: bool) -> Option<GridCase> {
+pub fn target_grid_case(reg: &Registry, fam_name: &str, variant: &str, par: usize, mask: bool, seed: u64, compact: bool, only_dir: Option<crate::registry::Dir>) -> Option<GridCase> {
     use crate::registry::{Dir, Role, Shape};
     let f = reg.family(fam_name)?;
     let fam = &reg.families[f];
@@ -783,10 +783,13 @@ pub fn target_grid_case(reg: &Registry, fam_name: &str, variant: &str, par: usiz
     let mut ops = vec![Op::New { id: 1, task: 0, fam: f, role: Role::Both, key: rng.bytes(fam.key_size), fixed: false }];
     let mut k = 0usize;
     for dir in [Dir::Dec, Dir::Enc] {
+        if only_dir.map(|d| d != dir).unwrap_or(false) {
+            continue;
+        }
         // batch lengths: tails of 1, 3 and par-1 blocks after one full batch (compact), every tail 0..=7 plus
         // two full batches and a tail otherwise
         let ns: Vec<usize> = if compact {
-            vec![par + 1, par + 3, 2 * par - 1]
+            vec![par + 1, par + 3]
         } else {
             let mut v: Vec<usize> = (0..=7usize.min(par.saturating_sub(1))).map(|t| par + t).collect();
             v.extend([2 * par - 1, 2 * par + 1]);
